@@ -16,6 +16,7 @@ CONSTANTS Flavour,       \* "base" | "allowlist" | "blocklist" | "pausable" | "c
           ApprAmts, DUs, \* approved amounts and lifetimes (until - now)
           MinTempTtl, MaxTtl, Now0, Depth,
           EmitEvery,     \* 0: emit nothing; k: emit about one REPLAY line per k transitions
+          ThinBlock,     \* TRUE: the blocklist flavour is the thin BlockList + burnable contract (burns exposed)
           WithNeg,       \* TRUE: also try -1 for amounts and lifetimes (cfg files cannot write -1)
           BUG            \* "" or the name of a seeded model bug (non-vacuity configurations)
 
@@ -28,6 +29,8 @@ AmtsN == Amts \cup Neg
 MintN == MintAmts \cup Neg
 ApprN == ApprAmts \cup Neg
 DUsN == DUs \cup Neg
+
+NoBurn == IF ThinBlock THEN {"capped"} ELSE {"blocklist", "capped"}   \* flavours exposing no burn entry point
 
 Acct == {"a", "b", "c"}
 Owner == "a"             \* pausable: owner;  lists: admin (initially allowed)
@@ -97,9 +100,9 @@ ImplOk(o, t) ==
     [] o.op = "approve" ->
          GateOk(o) /\ o.from \in o.auth /\ SetAllowance(o.from, o.sp, o.amt, o.until, t)[1]
     [] o.op = "burn" ->
-         Flavour \notin {"blocklist", "capped"} /\ GateOk(o) /\ o.from \in o.auth /\ UpdOk(o.from, None, o.amt)
+         Flavour \notin NoBurn /\ GateOk(o) /\ o.from \in o.auth /\ UpdOk(o.from, None, o.amt)
     [] o.op = "burn_from" ->
-         /\ Flavour \notin {"blocklist", "capped"} /\ GateOk(o) /\ o.sp \in o.auth
+         /\ Flavour \notin NoBurn /\ GateOk(o) /\ o.sp \in o.auth
          /\ Spend(o.from, o.sp, o.amt, t)[1] /\ UpdOk(o.from, None, o.amt)
     [] o.op = "mint" ->
          /\ Flavour \in {"base", "pausable", "capped"} /\ GateOk(o)
@@ -144,7 +147,7 @@ Ops(t) ==
   \cup {Op("approve", "a", None, "c", 2, t + 2, au, 0) : au \in {{}, {"c"}}}
   \cup {Op("transfer_from", "a", x, "c", m, 0, au, 0) :
           x \in {"a", "b", "c"}, m \in Amts, au \in {{"c"}, {"a"}, {}}}
-  \cup (IF Flavour \in {"blocklist", "capped"} THEN {} ELSE
+  \cup (IF Flavour \in NoBurn THEN {} ELSE
         {Op("burn", f, None, None, m, 0, IF w THEN {f} ELSE {}, 0) : f \in {"a", "b"}, m \in AmtsN \ {0}, w \in BOOLEAN}
         \cup {Op("burn_from", "a", None, "c", m, 0, au, 0) : m \in Amts \ {0}, au \in {{"c"}, {"a"}}})
   \cup (IF Flavour \in {"base", "capped"} THEN
